@@ -69,11 +69,20 @@ func genOp(r *rand.Rand, prop, tier string) simcore.Case {
 	switch prop {
 	case "C03":
 		senders, opsN = 1, 1
-	case "C06":
-		opsN = pick(1, 2, 3, 4)
-		cs.Cfg["ops2"] = pick(1, 2, 3, 4)
+	case "C06", "C09":
+		opsN = pick(1, 2, 2, 3, 4)
+		cs.Cfg["ops2"] = pick(1, 2, 2, 3, 4)
 		cs.Cfg["reuse"] = pick(0, 0, 1)
 		cs.Cfg["ackorder"] = int64(r.IntN(24))
+		// pre-checkpoint state must reach SST files and the base level in several
+		// operators: small memtables, eager (major) compaction
+		if r.IntN(4) != 0 {
+			cs.Cfg["mem"] = pick(96, 200, 400)
+			cs.Cfg["l0"] = pick(1, 2)
+			cs.Cfg["amp"] = pick(1, 25, 50)
+			cs.Cfg["target"] = pick(128, 300, 1000)
+		}
+		cs.Cfg["gc"] = 1
 	case "C02", "C11":
 		opsN = pick(1, 1, 2)
 	}
@@ -91,16 +100,17 @@ func genOp(r *rand.Rand, prop, tier string) simcore.Case {
 	cs.Cfg["nkeys"] = int64(2 + r.IntN(5))
 	cs.Cfg["dataseed"] = int64(r.Uint32())
 	rounds := 1 + r.IntN(3)
-	if prop == "C06" {
-		rounds = 2
-	}
 	perRound := 3 + r.IntN(12)
+	if prop == "C06" || prop == "C09" {
+		rounds = 2
+		perRound = 6 + r.IntN(30)
+	}
 	if tier == "thorough" {
 		perRound = 3 + r.IntN(40)
 	}
 	// workload mix
 	wEv, wWm := 6, 1+r.IntN(3)
-	timers := prop == "C10" || prop == "C06" || prop == "C02" || r.IntN(2) == 0
+	timers := prop == "C10" || prop == "C06" || prop == "C09" || prop == "C02" || r.IntN(2) == 0
 	for round := 0; round < rounds; round++ {
 		for i := 0; i < perRound; i++ {
 			s := int64(r.IntN(int(senders)))
@@ -193,12 +203,13 @@ func (j jobStub) OperatorCheckpointComplete(ctx context.Context, req *snapshotpb
 		return nil
 	}
 	owned := func(key string) bool { return w.m.owner == nil || w.m.owner([]byte(key)) == req.OperatorId }
-	for id, n := range w.m.processed {
+	for _, id := range sortedKeysAny(w.m.processed) {
+		n := w.m.processed[id]
 		if n > 0 && !pre[id] && owned(w.keyOf[id]) {
 			c.Violate(prop+"/post-barrier-event-applied", "checkpoint %d of operator %s: event %s was applied although its sender emitted it after its barrier %d", req.CheckpointId, req.OperatorId, id, req.CheckpointId)
 		}
 	}
-	for id := range pre {
+	for _, id := range sortedKeysAny(pre) {
 		if w.m.processed[id] == 0 && owned(w.keyOf[id]) {
 			c.Violate(prop+"/pre-barrier-event-missing", "checkpoint %d of operator %s was taken before event %s was applied although its sender delivered it ahead of barrier %d", req.CheckpointId, req.OperatorId, id, req.CheckpointId)
 		}
@@ -543,7 +554,28 @@ func bodyOp(c *sim.Ctx) {
 				})
 			}
 		}
+		gcStop := make(chan struct{})
+		if c.Cfg("gc", 0) == 1 {
+			// garbage collection as a scheduled event while the streams run: tables a
+			// compaction made unreachable are cleaned up (shared ones only after asking
+			// the neighbours), retention updates follow completed checkpoints
+			c.Go("gc", func() {
+				simrt.SetGroup("gc")
+				for steps := 0; steps < 4; steps++ { // forced collections are expensive in real time: a few per phase
+					select {
+					case <-gcStop:
+						return
+					default:
+					}
+					simrt.Sleep("gc-wait", 5*time.Millisecond)
+					n := gcStep(w.disk)
+					c.ProbeN("gc-deleted-files", n)
+					c.Probe("gc")
+				}
+			})
+		}
 		wg.Wait()
+		close(gcStop)
 		simrt.Yield("phase-done")
 		for s := range streams { // the next phase resumes behind barrier upTo
 			for i := w.pos[s]; i < len(streams[s]); i++ {
@@ -557,7 +589,8 @@ func bodyOp(c *sim.Ctx) {
 	}
 
 	phase1Ckpt := maxCkpt
-	if prop == "C06" && maxCkpt >= 2 {
+	rescale := (prop == "C06" || prop == "C09") && maxCkpt >= 2
+	if rescale {
 		phase1Ckpt = maxCkpt - 1
 	}
 	if !runPhase(phase1Ckpt) {
@@ -617,7 +650,7 @@ func bodyOp(c *sim.Ctx) {
 	}
 
 	// --- phase 2 (C06): rescale from the last checkpoint of phase 1 ---
-	if prop == "C06" && maxCkpt >= 2 {
+	if rescale {
 		w.mu.Lock()
 		recs := append([]*ackRec(nil), w.acks[phase1Ckpt]...)
 		w.mu.Unlock()
@@ -676,6 +709,24 @@ func bodyOp(c *sim.Ctx) {
 		if !runPhase(maxCkpt) || !checkAcks2(w, c, prop, maxCkpt, ids2) {
 			return
 		}
+		if c.Cfg("gc", 0) == 1 {
+			// the job announces that only the new checkpoint has to be retained: the
+			// restored (composite) checkpoint and with it the last references to some
+			// shared tables go away
+			simrt.SetGroup("job")
+			for _, id := range ids2 {
+				cl := &opClient{w: w, sender: "job", id: id}
+				if err := cl.UpdateRetainedCheckpoints(context.Background(), []uint64{maxCkpt}); err != nil {
+					c.Violate(prop+"/retain-error", "UpdateRetainedCheckpoints(%d) at %s: %v", maxCkpt, id, err)
+					return
+				}
+			}
+			c.Probe("retain")
+			for i := 0; i < 3; i++ {
+				simrt.Sleep("gc-settle", 2*time.Millisecond)
+				c.ProbeN("gc-deleted-files", gcStep(w.disk))
+			}
+		}
 	}
 
 	// --- drain: every sender's watermark passes every timer, then a last barrier ---
@@ -702,7 +753,7 @@ func bodyOp(c *sim.Ctx) {
 	if len(w.m.pending) != 0 {
 		c.Violate(prop+"/timer-missing", "%d timers never fired although every sender's watermark passed them: %v", len(w.m.pending), keysTimer(w.m.pending))
 	}
-	for id := range prefinal {
+	for _, id := range sortedKeysAny(prefinal) {
 		if w.m.processed[id] != 1 {
 			c.Violate(prop+"/event-count", "event %s reached the handler %d times", id, w.m.processed[id])
 		}
@@ -786,7 +837,8 @@ func (w *opWorld) verifyCheckpoint(a *ackRec) bool {
 		return false
 	}
 	rng := a.ack.KeyGroupRange
-	for subject, g := range p.groups {
+	for _, subject := range sortedKeysAny(p.groups) {
+		g := p.groups[subject]
 		if want := refKeyGroup([]byte(subject), w.kgs); g != want {
 			c.Violate(prop+"/stored-under-wrong-group", "operator %s persisted key %q under key group %d, MurmurHash3-32(key, 0) mod %d is %d", a.op, subject, g, w.kgs, want)
 			return false
@@ -818,7 +870,7 @@ func (w *opWorld) verifyCheckpoint(a *ackRec) bool {
 	for k := range p.state {
 		keys[k] = true
 	}
-	for k := range keys {
+	for _, k := range sortedKeysAny(keys) {
 		if gs, ws := stateString(p.state[k]), stateString(a.state[k]); gs != ws {
 			c.Violate(prop+"/checkpoint-content", "operator %s checkpoint %d, key %q: checkpoint holds %s, the events delivered before the barriers amount to %s", a.op, a.ack.CheckpointId, k, gs, ws)
 			return false
@@ -840,4 +892,16 @@ func isDigits(s string) bool {
 		}
 	}
 	return s != ""
+}
+
+// sortedKeysAny: map keys in sorted order - wherever a loop over a map can
+// report a violation, the *first* one reported must not depend on Go's
+// randomised map iteration order (the replay compares class and log hash).
+func sortedKeysAny[V any](m map[string]V) []string {
+	ks := make([]string, 0, len(m))
+	for k := range m {
+		ks = append(ks, k)
+	}
+	sort.Strings(ks)
+	return ks
 }
